@@ -551,12 +551,16 @@ def structures(name, thorough):
     for vi, variant in enumerate(r["variants"]):
         if not variant["params"]:
             combos = [("s", None), ("s", ss_c)] if thorough else [("s", None)]
+        elif thorough and name == "beta_quotient":
+            combos = [("s", None), ("b", None)]
         elif thorough and name in VERY_HEAVY:
             combos = [("s", None), ("b", None), ("mix", None), ("b", ss_c)]
         elif thorough:
             combos = [("s", None), ("b", None), ("mix", None), ("b21", None), ("s", ss_c), ("b", ss_c), ("b", ss_t)]
         elif name in VERY_HEAVY:
-            combos = [("s", None), ("b", None)] if vi == 0 else [("b", None)]
+            # quick tier: one batched structure of the canonical parametrisation (the alternative
+            # parametrisations and the other shape classes of these wrappers run in the thorough tier)
+            combos = [("b", None)] if vi == 0 else []
         elif vi == 0:
             combos = [("s", None), ("b", None), ("mix", None)]
             if name not in HEAVY:
@@ -571,7 +575,9 @@ def structures(name, thorough):
             else:
                 ds = [3 if sc in ("s", "mix") else 2]
             for d in ds:
-                out.append({"variant": vi, "shape": sc, "d": d, "ss": ss})
+                # beta_quotient in the quick tier: a single log_prob instance takes ~10 s to compile, so only
+                # simulate + assess are run there ("mini"); the thorough tier runs the full battery
+                out.append({"variant": vi, "shape": sc, "d": d, "ss": ss, "mini": (not thorough) and name == "beta_quotient"})
     return out
 
 
@@ -579,6 +585,7 @@ def structures(name, thorough):
 def case_strategy(draw, name, struct):
     r = ROWS[name]
     vi, shape_class, d, ss = struct["variant"], struct["shape"], struct["d"], struct["ss"]
+    mini = bool(struct.get("mini", False))
     variant = r["variants"][vi]
     params = _draw_params(draw, variant, shape_class, d)
     params1 = _draw_params(draw, variant, shape_class, d)
@@ -616,7 +623,7 @@ def case_strategy(draw, name, struct):
     else:
         eager_sim = draw(st.sampled_from([True, False, False, False, False, False]))
     return {
-        "dist": name, "variant": vi, "shape": shape_class, "d": d, "ss": ss, "params": params, "params1": params1,
+        "dist": name, "variant": vi, "shape": shape_class, "d": d, "ss": ss, "mini": mini, "params": params, "params1": params1,
         "form": form, "j": j, "u": u, "keys": keys, "mask": mask, "eager_sim": eager_sim,
         "pyscalar": draw(st.booleans()), "aslist": draw(st.booleans()), "pyval": draw(st.booleans()),
     }
@@ -757,7 +764,8 @@ def sampling_program(name, struct):
     flag-dependent branch: simulate in the canonical form and in alternative forms, importance
     with an empty and with a Mask(x, traced flag) constraint, update with a Mask(x, traced flag)
     constraint and changed arguments"""
-    K = (name, struct["variant"], struct["shape"], struct["d"], repr(struct["ss"]))
+    mini = bool(struct.get("mini", False))
+    K = (name, struct["variant"], struct["shape"], struct["d"], repr(struct["ss"]), mini)
     if K in _PROGS:
         return _PROGS[K]
     L = _lib()
@@ -774,8 +782,10 @@ def sampling_program(name, struct):
         pos1, kw1 = invocation(names, jmain, A1, ss)
         g, args = target(gf, pos, kw)
         tr = g.simulate(k0, args)
+        if mini:
+            return tr, {}, None, None, None, dict(assess=g.assess(C.v(x0), args))
         alts = {}
-        with_alt = name not in HEAVY or struct["shape"] == "s"
+        with_alt = name not in HEAVY or name in VERY_HEAVY or struct["shape"] == "s"
         for fname, f in simulate_forms(gf, r, variant, names, A0, ss, k0, limit=1 if with_alt else 0).items():
             t = f()
             alts[fname] = (t.get_retval(), t.get_score())
@@ -876,6 +886,7 @@ def check_case(case, ctx=None):
     variant = r["variants"][case["variant"]]
     names = [s[0] for s in variant["params"]]
     struct = {k: case[k] for k in ("variant", "shape", "d", "ss")}
+    struct["mini"] = bool(case.get("mini", False))
 
     def bad(kind, msg):
         raise Violation(f"{kind}:{name}", msg, case)
@@ -999,11 +1010,15 @@ def check_case(case, ctx=None):
             bad("kwargs-vs-positional", f"jit: {fname} invocation with the same key scored {float(asc)!r}, canonical form scored {float(tr_j.get_score())!r}")
     if imp_n is not None:
         check_unconstrained("jit importance(empty)", imp_n[0], imp_n[1], "unconstrained-weight")
-    if flag:
+    if imp_m is None:
+        pass
+    elif flag:
         as_mask_kind(True, lambda: check_constrained("jit importance(C.v(x).mask(traced True))", imp_m[0], imp_m[1], x0, Lx0, Mx0, "importance-vs-tfp"))
     else:
         as_mask_kind(False, lambda: check_unconstrained("jit importance(C.v(x).mask(traced False))", imp_m[0], imp_m[1], "unconstrained-weight"))
-    if math.isfinite(Lvj0):
+    if upd_m is None:
+        pass
+    elif math.isfinite(Lvj0):
         Lvj1, Mvj1 = L_ref(ref1, vj)
         a1j = stored_args(jpos1, jkw1)
         if flag:
@@ -1028,6 +1043,8 @@ def check_case(case, ctx=None):
                 bad("scipy", f"jit assess({_np(x0).tolist()}) = {float(sc)!r}, float64 reference (scipy / closed form of the documented parametrisation) = {want!r}, params {case['params']}")
             if ctx is not None:
                 ctx.count("scipy-checked")
+        if "imp" not in extra:
+            return
         check_constrained("jit importance(C.v(x))", extra["imp"][0], extra["imp"][1], x0, Lx0, Mx0, "importance-vs-tfp")
         if math.isfinite(Lvj0):
             a0j = stored_args(jpos, jkw)
@@ -1184,7 +1201,7 @@ def classes_of(case):
         f"jit-mask:traced-{m['flag']}",
         f"eager-mask:{m['kind']}:{m['flag']}:" + ("importance+update" if m["kind"] == "py" else m["op"] + (":args-changed" if m["op"] == "update" and m["chg"] else "")),
         f"variant:{n}:{case['variant']}",
-        "jit-only-battery" if n in JIT_ONLY else ("eager-sampler" if case["eager_sim"] else "jit-sampler-only"),
+("jit-mini-battery(simulate+assess)" if case.get("mini") else "jit-only-battery") if n in JIT_ONLY else ("eager-sampler" if case["eager_sim"] else "jit-sampler-only"),
         "args:" + ("python-scalars" if case["pyscalar"] else "arrays"),
     ]
     if case["shape"] != "s":
@@ -1230,10 +1247,8 @@ def _selftest():
 
 def _weight(n):
     if n == "beta_quotient":
-        return 12
-    if n in VERY_HEAVY:
-        return 6
-    return 3 if n in HEAVY else 1
+        return 10
+    return 4 if n in HEAVY else 1
 
 
 def shard_names(shard, nshards):
